@@ -14,7 +14,7 @@ Init == /\ o \in [fw : Frameworks, layout : {"flat", "nested"},
                   merge : {"default", "exact", "percent_50", "number_2", "percent_90 number_3", "exact number_1"},
                   datetime : BOOLEAN, converters : BOOLEAN, maxlit : {99, 0, 2},
                   nounicode : BOOLEAN, dk : {"none", "dkf", "dkr", "both"}, preamble : BOOLEAN,
-                  disable : {"none", "float", "IntString", "int float"}, meta : BOOLEAN]
+                  disable : {"none", "float", "IntString", "int float", "date IsoTimeString"}, meta : BOOLEAN]
         /\ (o.meta => o.fw \in {"attrs", "dataclasses"})
         /\ (Emit => PrintT(<<"B", ToJson(o)>>))
 Next == UNCHANGED o
